@@ -343,6 +343,15 @@ O(id='oer_put_tag', props=['C01', 'C02', 'C07'], kind='width', entry='h_oer_put_
 O(id='oer_fetch_tag.b10', props=['C03', 'C04', 'C05'], kind='bounded', entry='h_oer_fetch_tag', functions=['oer_fetch_tag'],
   unwind=12, bound='every input of at most 10 octets and every cut point', min_props=20, **OT)
 
+# ---------------------------------------------------------------- INTEGER over OER
+IO = dict(harness='harness/h_integer_oer.c', units=[SK + 'INTEGER_oer.c', SK + 'INTEGER.c', SK + 'oer_support.c'], fp_restrict=[(r'::cb$', ['vf_cb'])])
+O(id='INTEGER_oer.roundtrip', props=['C01', 'C02', 'C06', 'C07', 'C13'], kind='width', entry='h_INTEGER_oer', functions=['INTEGER_encode_oer', 'INTEGER_decode_oer'],
+  proves=['INTEGER_encode_oer'], unwind=14, cbmc=['--no-malloc-may-fail'],
+  bound='every intmax_t value with 0..2 redundant leading octets, every layout {width 0,1,2,4,8} x {signed, non-negative}', min_props=50, timeout=900, **IO)
+O(id='INTEGER_decode_oer.b12', props=['C04', 'C05', 'C14'], kind='bounded', entry='h_INTEGER_decode_oer', functions=['INTEGER_decode_oer'],
+  unwind=14, cbmc=['--malloc-may-fail', '--malloc-fail-null', '--memory-leak-check'],
+  bound='every input of at most 12 octets, width 0..8, both signs, fresh or re-used structure; every allocation may fail', min_props=50, timeout=900, **IO)
+
 UNVERIFIED = {
  'C07': ['asn_encode_to_buffer / asn_encode_to_new_buffer / uper_encode_to_buffer / uper_encode_to_new_buffer with a UPER type encoder: obligations exist (tier experimental) but do not discharge (symbolic-length memcpy of the 32-octet bit scratch space runs out of memory); asn_encode with UPER is covered',
          'every constructed / generated type encoder is assumed to follow the operation-slot convention enumerated by the stub encoder',
